@@ -87,7 +87,7 @@ theorem w_newRender {ex : St → BOp → St} (hex : Wex ex) {a st : St} (h : W a
 theorem w_newAsync {ex : St → BOp → St} (hex : Wex ex) {a st : St} (h : W a st) (b : Nat) :
     W a (newAsync ex st b) := by
   unfold newAsync
-  have h1 : W a (setMutDepth (pushEager st b EffKind.async) (st.mutDepth + 1)) :=
+  have h1 : W a (setMutDepth (pushEager st b EffKind.async) st.mutDepth) :=
     W.same (st := pushEager st b EffKind.async) (w_pushEager h _ _) rfl rfl
   have h2 := w_runScoped hex h1 st.effs.length (eagerOwner st) b
   refine w_finishAsync (w_addTask ?_ _) _
